@@ -106,8 +106,13 @@ class DechunkedInput(io.RawIOBase):
 
     def read_chunk_len(self) -> int:
         try:
-            line = self._rfile.readline().decode("latin1")
-            _len = int(line.strip(), 16)
+            line = self._rfile.readline().decode("latin1").strip()
+
+            # int() accepts more than hex digits, such as "+2", "0x2", "1_0".
+            if not line or line.strip("0123456789abcdefABCDEF"):
+                raise ValueError("Invalid hex digits")
+
+            _len = int(line, 16)
         except ValueError as e:
             raise OSError("Invalid chunk header") from e
         if _len < 0:
